@@ -1,6 +1,7 @@
 package props
 
 import (
+	"context"
 	stderrors "errors"
 	"fmt"
 	"runtime"
@@ -22,6 +23,8 @@ var (
 	c19E1  = stderrors.New("e1")
 	c19E2  = stderrors.New("e2")
 	c19WE1 = pkgerrors.Wrap(c19E1, "wrapped")
+	// an error that IS a context error (as a handler returns it after its per-call deadline): just another error for every middleware
+	c19CE = fmt.Errorf("attempt gave up: %w", context.DeadlineExceeded)
 )
 
 type c19Out struct {
@@ -47,7 +50,9 @@ func c19Scripts() [][]c19Res {
 	pv := c19Res{[]c19Out{}, "nil", "value"}
 	pe := c19Res{[]c19Out{}, "nil", "error"}
 	pn := c19Res{[]c19Out{}, "nil", "nil"}
+	ce := c19Res{[]c19Out{}, "ce", "none"}
 	return [][]c19Res{
+		{ce, ok1}, {ce, ce, ok2}, {ce},
 		{ok0}, {ok1}, {ok2}, {e1o, ok1}, {e1}, {we1, ok0}, {e2, e2, ok2}, {e2}, {pv}, {pe}, {pn}, {e1, pv}, {e1, e2, e1o, ok2},
 	}
 }
@@ -135,7 +140,7 @@ func runC19(c *Ctx) error {
 		thr[i] = TT.NewRun("throttle", map[string]any{"period": 20000, "slack": 20000})
 		thr[i].Key = fmt.Sprintf("throttle%d", i)
 	}
-	Parallel(nth, func(i int) { c19Throttle(thr[i], 4+i%5) })
+	Parallel(nth, func(i int) { c19Throttle(thr[i], 4+i%5, i%3) })
 	c.AddStat("throttle_runs", nth)
 	return nil
 }
@@ -178,6 +183,8 @@ func c19ErrClass(err error) string {
 		return "e2"
 	case err == c19WE1:
 		return "we1"
+	case err == c19CE:
+		return "ce"
 	case stderrors.As(err, &rp):
 		return "panic:" + c19PanicKind(rp.V)
 	}
@@ -259,6 +266,8 @@ func c19Run(r *tr.Run, cs c19Case) {
 			return outs, c19E2
 		case "we1":
 			return outs, c19WE1
+		case "ce":
+			return outs, c19CE
 		}
 		return outs, nil
 	}
@@ -311,7 +320,8 @@ func c19Run(r *tr.Run, cs c19Case) {
 	r.NonTrivial = len(cs.Chain) > 0
 }
 
-func c19Throttle(r *tr.Run, callers int) {
+// mode: 0 live messages; 1 messages whose context is already cancelled; 2 Throttle inside a Timeout shorter than the period
+func c19Throttle(r *tr.Run, callers int, mode int) {
 	th := middleware.NewThrottle(50, time.Second) // period 20 ms
 	t0 := time.Now()
 	var mu sync.Mutex
@@ -321,6 +331,18 @@ func c19Throttle(r *tr.Run, callers int) {
 		mu.Unlock()
 		return nil, nil
 	})
+	if mode == 2 {
+		h = middleware.Timeout(3 * time.Millisecond)(h)
+	}
+	newMsg := func() *message.Message {
+		m := message.NewMessage("t", nil)
+		if mode == 1 {
+			ctx, cancel := context.WithCancel(context.Background())
+			cancel()
+			m.SetContext(ctx)
+		}
+		return m
+	}
 	time.Sleep(time.Duration(10+7*callers) * time.Millisecond) // a tick may already be buffered
 	var wg sync.WaitGroup
 	for g := 0; g < callers; g++ {
@@ -328,7 +350,7 @@ func c19Throttle(r *tr.Run, callers int) {
 		go func() {
 			defer wg.Done()
 			for i := 0; i < 4; i++ {
-				h(message.NewMessage("t", nil))
+				h(newMsg())
 			}
 		}()
 	}
